@@ -643,7 +643,10 @@ func (t *TCP) SetInternalPortsForTesting() {
 }
 
 func (t *TCP) VerifyChecksum() (error, gopacket.ChecksumVerificationResult) {
-	bytes := append(t.Contents, t.Payload...)
+	// Contents usually has spare capacity reaching into the packet's buffer, so
+	// appending to it would write into data that other readers share.
+	bytes := make([]byte, 0, len(t.Contents)+len(t.Payload))
+	bytes = append(append(bytes, t.Contents...), t.Payload...)
 
 	existing := t.Checksum
 	verification, err := t.computeChecksum(bytes, IPProtocolTCP)
